@@ -93,13 +93,16 @@ def rand_case(rng, max_o, max_s, max_f, chain=0.25):
     else:
         O = R.rand_otree(rng, rng.randint(2, max_o), R.shape_leaves(S), fams=fams)
     c = dict(rng.choice(GRID)) if rng.random() < 0.6 else R.rand_costs(rng)
-    return {"S": S, "O": O, "costs": c}
+    case = {"S": S, "O": O, "costs": c}
+    if rng.random() < 0.25:   # same input object solved before under other costs (see recon.primed)
+        case["prime"] = R.rand_costs(rng, coherent_only=False)
+    return case
 
 
 def impl(case):
     from superrec2.compute import unordered_super_reconciliation as M
     from superrec2.utils.dynamic_programming import RetentionPolicy as RP
-    B = R.Built(case["S"], case["O"], case["costs"], labelled=True, unordered=True)
+    B = R.primed(case, lambda i: M.usreconcile_extended_uspfs(i, RP.ALL), labelled=True, unordered=True)
     out = {}
     for name, fn in (("ext", M.usreconcile_extended_uspfs), ("base", M.usreconcile_base_uspfs)):
         try:
